@@ -453,6 +453,15 @@ func arithLInt(g *G, ops []string) {
 		if i%12 != 0 {
 			y.E = x.E - gap
 		}
+		if i%20 == 3 { // every digit is discarded: a coefficient that IS a machine-word boundary block (18..39 digits), as a fraction below one
+			blk, k := g.R.wordEdge(1)
+			blk.Mod(blk, new(bigIntT).Exp(bigInt(10), bigInt(int64(k)), nil))
+			x = finDec(g.R.bool(), blk, -k-g.R.Intn(2))
+			c.Emax, c.Emin = 100000, -100000
+			if c.P < 3 {
+				c.P = 3
+			}
+		}
 		if i%20 == 2 { // precisions beyond the 128-entry power-of-ten table
 			c.P = []int{129, 130, 150, 200}[g.R.Intn(4)]
 			c.Emax, c.Emin = 100000, -100000
@@ -479,7 +488,9 @@ func arithLInt(g *G, ops []string) {
 		}
 		for _, op := range ops {
 			q := 0
-			if op == "quantize" {
+			if op == "quantize" && i%20 == 3 {
+				q = g.R.between(0, 1)
+			} else if op == "quantize" {
 				q = x.E + g.R.between(-c.P-3, c.P+6)
 				if g.R.Intn(5) == 0 {
 					q = x.E + g.R.between(-60, 60)
